@@ -160,6 +160,8 @@ func TestC05(t *testing.T) {
 	cfg.Faults = 1
 	cfg.Cancels = 1
 	cfg.SmallBatches = true
+	cfg.RefBurstPct = 20 // several writes in flight together: batches fill up and split
+	cfg.RefPool = nil    // (without a shared reference, so that all of them commit)
 	cfg.DryRunPct = 10
 	cfg.MetaFirstPct = 25
 	runProp(t, c, func(rt *rapid.T) {
@@ -327,7 +329,7 @@ func TestC11(t *testing.T) {
 	cfg.DryRunPct = 20 // previews carrying a reference race the real writes too
 	cfg.RevertByRef = true
 	cfg.RefBurstPct = 20
-	cfg.RefPool = []string{"", "r1", "r1", "r2"}
+	cfg.RefPool = []string{"", "r1", "r1", "r2", " ", "\t"} // a blank reference is a reference like any other
 	cfg.MaxPerRound = 4
 	cfg.Crashes = 1
 	cfg.Faults = 1
@@ -391,6 +393,9 @@ func TestC16(t *testing.T) {
 	cfg.SameIKIdentical = true
 	cfg.ReadFaults = 1
 	cfg.Cancels = 3
+	cfg.Closes = 2 // graceful shutdowns with writes in flight
+	cfg.RefBurstPct = 25
+	cfg.RefPool = nil // bursts of writes that all commit: several logs queued behind the one being persisted
 	runProp(t, c, func(rt *rapid.T) {
 		plan := enginesim.GenPlan(rt, cfg)
 		// the property speaks about replays: the same request sent again with its key
